@@ -175,6 +175,7 @@ class Scheduler:
         self.wall_timeout = wall_timeout
         self.threads = []
         self.cur = None
+        self.label_counts = {}
         self.step = 0
         self.nchoices = 0
         self.clock = 1000.0
@@ -333,6 +334,10 @@ class Scheduler:
         if self.aborting:
             raise SchedAbort()
         self.step += 1
+        # how often each kind of scheduling point was reached (harness
+        # threads can wait for "the k-th fs.write" and run before its effect)
+        lc = self.label_counts
+        lc[what] = lc.get(what, 0) + 1
         if self.tick:
             self.clock += self.tick
         if self.step > self.max_steps:
